@@ -15,7 +15,7 @@ use std::collections::BTreeMap;
 pub fn meta() -> Meta {
     Meta {
         level: "exploration",
-        rule: "every generated program (each leaf template alone and in every one-level context after its declarations, statement sequences, and the same with one injected semantic fault: a declaration deleted, duplicated, retyped, turned into a qubit or made const) under (a) the 9 uniform layouts and every layout deviating from the default in at most k gaps of its last statements with each separator flavour, (b) 4 fixed injective renamings of all user identifiers to fresh names (ASCII, leading underscore, Unicode, keyword-prefixed) and rotations, reversal and adjacent swaps of the user identifiers among themselves, (c) every split point at a top-level statement boundary, (d) the same text analysed twice; differential equality of graph, symbol table (up to the renaming) and diagnostic kinds; non-trivial = programs with at least two user identifiers and one diagnostic or one compound statement; outcomes = distinct (statement count, diagnostic kinds) observations",
+        rule: "every generated program (each leaf template alone and in every one-level context after its declarations, statement sequences, and the same with one injected semantic fault: a declaration deleted, duplicated, retyped, turned into a qubit or made const) under (a) the 10 uniform layouts and every layout deviating from the default in at most k gaps of its last statements with each separator flavour, (b) 4 fixed injective renamings of all user identifiers to fresh names (ASCII, leading underscore, Unicode, keyword-prefixed) and rotations, reversal and adjacent swaps of the user identifiers among themselves, (c) every split point at a top-level statement boundary, (d) the same text analysed twice; differential equality of graph, symbol table (up to the renaming) and diagnostic kinds; non-trivial = programs with at least two user identifiers and one diagnostic or one compound statement; outcomes = distinct (statement count, diagnostic kinds) observations",
         assumptions: vec![
             "a number and its unit are adjacent or separated by blanks only; gaps inside pragma / annotation lines are not varied",
             "renamings never map onto keywords, built-in constants, U or standard-library gate names",
